@@ -11,8 +11,8 @@
 package bed
 
 import (
+	"bufio"
 	"bytes"
-	"encoding/csv"
 	"fmt"
 	"io"
 	"strconv"
@@ -231,15 +231,13 @@ func parseLine(fields []string) (*BED, error) {
 
 // A reader reads and parses BED lines.
 type reader struct {
-	r *csv.Reader
+	r *bufio.Reader
+	n int // Number of fields in the first line, 0 before it is read.
 }
 
 // newReader returns a new BED reader that reads from r.
 func newReader(r io.Reader) *reader {
-	cr := csv.NewReader(r)
-	cr.Comma = '\t'
-	cr.Comment = '#'
-	return &reader{cr}
+	return &reader{r: bufio.NewReader(r)}
 }
 
 // read returns the next BED line, and n as the number of fields that were found.
@@ -249,9 +247,28 @@ func newReader(r io.Reader) *reader {
 // For example if n=5, then the populated fields are Chrom, ChromStart, ChromEnd,
 // Name and Score.
 func (r *reader) read() (b *BED, err error) {
-	line, err := r.r.Read()
-	if err != nil {
-		return nil, err
+	for {
+		// BED has no quoting; fields are split on tabs only.
+		line, err := r.r.ReadString('\n')
+		if err != nil && err != io.EOF {
+			return nil, err // A partially read line is dropped.
+		}
+		line = strings.TrimSuffix(strings.TrimSuffix(line, "\n"), "\r")
+		// Skip empty lines and comments.
+		if line == "" || line[0] == '#' {
+			if err == io.EOF {
+				return nil, io.EOF
+			}
+			continue
+		}
+		fields := strings.Split(line, "\t")
+		if r.n == 0 {
+			r.n = len(fields)
+		}
+		if len(fields) != r.n {
+			return nil, fmt.Errorf("wrong number of fields: %v, want %v",
+				len(fields), r.n)
+		}
+		return parseLine(fields)
 	}
-	return parseLine(line)
 }
